@@ -80,7 +80,10 @@ class ContractMixin(CallMixin):
             for i, a in enumerate(node.args):
                 c = self.cond(st, a)
                 if sf is not None and sf.mode == "check":
+                    # call site: the precondition is an obligation; it is not added to the path condition
+                    # (it would end up inside comprehension / loop guards)
                     self.ctx.obls.append(self.mk_obl(st, f"pre@{sf.contract.qualname}", c, "pre", sf.callsite))
+                    continue
                 st.pc.append(c)
                 if z3.is_false(z3.simplify(c)):
                     st.status = "dead"
@@ -95,6 +98,9 @@ class ContractMixin(CallMixin):
                 Deferred(name, node, self.snapshot_env(st), label)]
             return VNone()
         if name == "types" or name == "pure" or name == "assume_contract":
+            return VNone()
+        if name == "cut_after":
+            st.ghost["__cuts__"] = tuple(st.ghost.get("__cuts__", ())) + tuple(ast.literal_eval(a) for a in node.args)
             return VNone()
         if name == "implies":
             a = self.cond(st, node.args[0])
@@ -412,6 +418,10 @@ class ContractMixin(CallMixin):
                 if contract.qualname not in self.ctx.assumed:
                     self.ctx.assumed.append(contract.qualname)
             st.events.append(("call", contract.qualname, tuple(args), None))
+            cuts = st.ghost.get("__cuts__", ())
+            if contract.qualname in cuts and len(st.frames) >= 2 and st.frames[-2].finfo is not None \
+                    and st.frames[-2].finfo.qualname == st.ghost.get("__verifying__"):
+                st.ghost["__cut_pending__"] = True
             return result
         finally:
             st.ghost["__multi__"] = multi
